@@ -44,3 +44,111 @@ def run_parts(ctx, parts):
         "engine udp (real loopback sockets): loopback UDP neither loses nor reorders datagrams of one sender at these volumes "
         "(receive buffers enlarged); batching is forced by parking the receiving goroutine on a lock and is not itself observed - "
         "when the scheduler defeats it the datagrams arrive in smaller batches and the case is weaker, never wrong")
+
+
+# --------------------------------------------------------------------------- io engine (coq/io)
+
+IO_OBLIGATIONS = ["io_tx_exactly_once", "io_tx_prefix", "io_rx_is_filter", "io_rx_insert", "io_rx_only_source"]
+PARTS["io"] = ("^TestVerifUDPIo$", "UDPio.report.json",
+               "UDPSession.tx called directly on prepared queues of 0-40 datagrams with a scripted kernel (any split into accepted prefixes, "
+               "failures at any call) and UDPSession.readLoop run on scripted recvmmsg batches (7 address shapes incl. equal-but-distinct "
+               "objects, 4-in-6 form, other port / host / zone, a non-UDP address printing alike; UDP, string and learned source modes; "
+               "empty datagrams inside batches; Close during any ReadBatch) - every case replayed in the Coq model coq/io/Io.v")
+
+UDP_CLASS = {0: 0, 1: 0, 2: 0, 3: 1, 4: 2, 5: 3, 6: 4}     # sameUDPAddr classes; a non-UDP address never matches
+STR_CLASS = {0: 0, 1: 0, 2: 0, 3: 1, 4: 2, 5: 3, 6: 0}     # String() classes
+
+
+def _ints(s):
+    return [] if s == "-" else [int(x) for x in s.split(",")]
+
+
+def _coq_list(xs):
+    return "[" + "; ".join(xs) + "]"
+
+
+def io_compare(ctx):
+    """Replays the op log of TestVerifUDPIo in the Coq model (vm_compute inside coqc); a mismatch = the
+    correspondence between tx_linux.go / readloop_linux.go and coq/io/Io.v no longer checks."""
+    import os
+    import re
+    logp = os.path.join(ctx.dir, "UDPio.log")
+    if not os.path.exists(logp):
+        ctx.broke("io engine: the harness wrote no op log")
+        return None
+    tx, rx = [], []
+    for line in open(logp):
+        kv = dict(t.split("=", 1) for t in line.split()[1:])
+        if line.startswith("TX "):
+            sizes, rs = _ints(kv["q"]), _ints(kv["rs"])
+            q = _coq_list("(%d, %d)" % (i, sz) for i, sz in enumerate(sizes))
+            resp = _coq_list(("ROk %d" % r) if r > 0 else "RErr" for r in rs)
+            tx.append("(%s, %s, %s, %s, %s, %s)" % (q, resp, _coq_list(map(str, _ints(kv["wire"]))), kv["npkts"], kv["nbytes"],
+                                                    "true" if kv["err"] == "1" else "false"))
+        elif line.startswith("RX "):
+            mode, close = int(kv["mode"]), int(kv["close"])
+            msgs = [] if kv["msgs"] == "-" else [tuple(int(x) for x in m.split(":")) for m in kv["msgs"].split(",")]
+            nb = (max(m[0] for m in msgs) + 1) if msgs else 0
+            processed = [m for m in msgs if close < 0 or m[0] < close]
+            cls = UDP_CLASS if mode == 0 else STR_CLASS
+            if mode == 2:   # learned from the first message the loop sees: a UDP address -> sameUDPAddr, else String()
+                cls = STR_CLASS if (processed and processed[0][1] == 6) else UDP_CLASS
+            batches = [[] for _ in range(nb)]
+            for b, ai, mid, ln in msgs:
+                batches[b].append("mkMsg %d (%d, %d)" % (cls[ai], mid, ln))
+            closed = "Some %d" % close if 0 <= close else "None"
+            rx.append("(%s, %s, %s, %s, %s)" % ("None" if mode == 2 else "Some 0", _coq_list(_coq_list(b) for b in batches), closed,
+                                                _coq_list(map(str, _ints(kv["got"]))), kv["refused"]))
+    src = """From Coq Require Import List Arith Bool.
+From KV.Io Require Import Io.
+Import ListNotations.
+Definition eqnl := list_eq_dec Nat.eq_dec.
+Definition chk_tx (c : list (nat * nat) * list resp * list nat * nat * nat * bool) : bool :=
+  match c with (q, rs, w, np, nb, e) =>
+    let r := tx_loop (@snd nat nat) rs q in
+    valid rs (length q) && (if eqnl (map fst (wire r)) w then true else false) && Nat.eqb (npkts r) np && Nat.eqb (nbytes r) nb
+    && Bool.eqb (werr r) e && negb (stuck r) end.
+Definition chk_rx (c : option nat * list (list (@rmsg nat (nat * nat))) * option nat * list nat * nat) : bool :=
+  match c with (s, bs, cl, got, refu) =>
+    let r := rx_loop Nat.eqb s bs cl in
+    (if eqnl (map fst (filter (fun p : nat * nat => 0 <? snd p) (fed r))) got then true else false) && Nat.eqb (refused r) refu end.
+Fixpoint bad {A} (f : A -> bool) (i : nat) (l : list A) : list nat :=
+  match l with [] => [] | x :: t => if f x then bad f (S i) t else i :: bad f (S i) t end.
+Definition tx_cases := %s.
+Definition rx_cases := %s.
+Definition TXBAD := Eval vm_compute in bad chk_tx 0 tx_cases.
+Definition RXBAD := Eval vm_compute in bad chk_rx 0 rx_cases.
+Print TXBAD.
+Print RXBAD.
+""" % (_coq_list(tx) if tx else "(@nil (list (nat * nat) * list resp * list nat * nat * nat * bool))",
+       _coq_list(rx) if rx else "(@nil (option nat * list (list (@rmsg nat (nat * nat))) * option nat * list nat * nat))")
+    vf = os.path.join(ctx.dir, "IoCases.v")
+    open(vf, "w").write(src)
+    with V.Lock("coq-io"):
+        rc, o = V.sh(["coqc"] + V.coq_flags("io") + ["-Q", ctx.dir, "KV.IoObs", vf], cwd=ctx.dir, timeout=900)
+    if rc != 0:
+        ctx.broke("io engine: the replay file did not compile (model interface changed?)", V.tail_err(o))
+        return None
+    flat = " ".join(o.split())
+    res = {}
+    for name in ("TXBAD", "RXBAD"):
+        m = re.search(name + r" = \[(.*?)\]", flat)
+        res[name] = None if m is None else [x.strip() for x in m.group(1).split(";") if x.strip()]
+    summ = {"cases": len(tx) + len(rx), "tx_cases": len(tx), "rx_cases": len(rx),
+            "mismatches": sum(len(v or []) for v in res.values())}
+    if res["TXBAD"] is None or res["RXBAD"] is None:
+        ctx.broke("io engine: no verdict from the model replay", o[-2000:])
+    elif summ["mismatches"]:
+        ctx.broke("correspondence: tx_linux.go / readloop_linux.go vs coq/io/Io.v - the Coq model and the implementation differ on %d of %d cases "
+                  "(tx cases %s, rx cases %s of UDPio.log)" % (summ["mismatches"], summ["cases"], res["TXBAD"][:8], res["RXBAD"][:8]))
+    ctx.coverage["traces_validated_against_impl"] = ctx.coverage.get("traces_validated_against_impl", 0) + summ["cases"]
+    ctx.coverage.setdefault("model_replay", []).append(dict(summ, what="UDPSession.tx / UDPSession.readLoop vs coq/io/Io.v, evaluated by vm_compute"))
+    return summ
+
+
+def io_part(ctx):
+    """Statements of coq/io + the scripted-kernel correspondence."""
+    import kcp_common as K
+    K.extra_statements(ctx, "io", "Cio.v", IO_OBLIGATIONS)
+    run_parts(ctx, ["io"])
+    io_compare(ctx)
